@@ -5,8 +5,8 @@ package main
 // is recorded (HANG / OOM) instead of taking the harness down.
 
 import (
-	"bytes"
 	"bufio"
+	"bytes"
 	"encoding/hex"
 	"fmt"
 	"io"
@@ -14,6 +14,7 @@ import (
 	"os/exec"
 	"runtime"
 	"strings"
+	"syscall"
 	"time"
 
 	"github.com/contiv/libOpenflow/common"
@@ -32,22 +33,70 @@ func um(m util.Message) decFn {
 }
 
 var decoders = map[string]func(b []byte) (err error, v util.Message, extra string){
-	"eth":      func(b []byte) (error, util.Message, string) { v := new(protocol.Ethernet); return v.UnmarshalBinary(b), v, "" },
-	"vlan":     func(b []byte) (error, util.Message, string) { v := new(protocol.VLAN); return v.UnmarshalBinary(b), v, "" },
-	"arp":      func(b []byte) (error, util.Message, string) { v := new(protocol.ARP); return v.UnmarshalBinary(b), v, "" },
-	"ip4":      func(b []byte) (error, util.Message, string) { v := new(protocol.IPv4); return v.UnmarshalBinary(b), v, "" },
-	"ip6":      func(b []byte) (error, util.Message, string) { v := new(protocol.IPv6); return v.UnmarshalBinary(b), v, "" },
-	"icmp":     func(b []byte) (error, util.Message, string) { v := protocol.NewICMP(); return v.UnmarshalBinary(b), v, "" },
-	"udp":      func(b []byte) (error, util.Message, string) { v := protocol.NewUDP(); return v.UnmarshalBinary(b), v, "" },
-	"tcp":      func(b []byte) (error, util.Message, string) { v := protocol.NewTCP(); return v.UnmarshalBinary(b), v, "" },
-	"hbh":      func(b []byte) (error, util.Message, string) { v := protocol.NewHopByHopHeader(); return v.UnmarshalBinary(b), v, "" },
-	"routing":  func(b []byte) (error, util.Message, string) { v := protocol.NewRoutingHeader(); return v.UnmarshalBinary(b), v, "" },
-	"fragment": func(b []byte) (error, util.Message, string) { v := protocol.NewFragmentHeader(); return v.UnmarshalBinary(b), v, "" },
-	"option":   func(b []byte) (error, util.Message, string) { v := new(protocol.Option); return v.UnmarshalBinary(b), v, "" },
-	"igmp12":   func(b []byte) (error, util.Message, string) { v := new(protocol.IGMPv1or2); return v.UnmarshalBinary(b), v, "" },
-	"igmp3q":   func(b []byte) (error, util.Message, string) { v := new(protocol.IGMPv3Query); return v.UnmarshalBinary(b), v, "" },
-	"igmp3gr":  func(b []byte) (error, util.Message, string) { v := new(protocol.IGMPv3GroupRecord); return v.UnmarshalBinary(b), v, "" },
-	"igmp3r":   func(b []byte) (error, util.Message, string) { v := new(protocol.IGMPv3MembershipReport); return v.UnmarshalBinary(b), v, "" },
+	"eth": func(b []byte) (error, util.Message, string) {
+		v := new(protocol.Ethernet)
+		return v.UnmarshalBinary(b), v, ""
+	},
+	"vlan": func(b []byte) (error, util.Message, string) {
+		v := new(protocol.VLAN)
+		return v.UnmarshalBinary(b), v, ""
+	},
+	"arp": func(b []byte) (error, util.Message, string) {
+		v := new(protocol.ARP)
+		return v.UnmarshalBinary(b), v, ""
+	},
+	"ip4": func(b []byte) (error, util.Message, string) {
+		v := new(protocol.IPv4)
+		return v.UnmarshalBinary(b), v, ""
+	},
+	"ip6": func(b []byte) (error, util.Message, string) {
+		v := new(protocol.IPv6)
+		return v.UnmarshalBinary(b), v, ""
+	},
+	"icmp": func(b []byte) (error, util.Message, string) {
+		v := protocol.NewICMP()
+		return v.UnmarshalBinary(b), v, ""
+	},
+	"udp": func(b []byte) (error, util.Message, string) {
+		v := protocol.NewUDP()
+		return v.UnmarshalBinary(b), v, ""
+	},
+	"tcp": func(b []byte) (error, util.Message, string) {
+		v := protocol.NewTCP()
+		return v.UnmarshalBinary(b), v, ""
+	},
+	"hbh": func(b []byte) (error, util.Message, string) {
+		v := protocol.NewHopByHopHeader()
+		return v.UnmarshalBinary(b), v, ""
+	},
+	"routing": func(b []byte) (error, util.Message, string) {
+		v := protocol.NewRoutingHeader()
+		return v.UnmarshalBinary(b), v, ""
+	},
+	"fragment": func(b []byte) (error, util.Message, string) {
+		v := protocol.NewFragmentHeader()
+		return v.UnmarshalBinary(b), v, ""
+	},
+	"option": func(b []byte) (error, util.Message, string) {
+		v := new(protocol.Option)
+		return v.UnmarshalBinary(b), v, ""
+	},
+	"igmp12": func(b []byte) (error, util.Message, string) {
+		v := new(protocol.IGMPv1or2)
+		return v.UnmarshalBinary(b), v, ""
+	},
+	"igmp3q": func(b []byte) (error, util.Message, string) {
+		v := new(protocol.IGMPv3Query)
+		return v.UnmarshalBinary(b), v, ""
+	},
+	"igmp3gr": func(b []byte) (error, util.Message, string) {
+		v := new(protocol.IGMPv3GroupRecord)
+		return v.UnmarshalBinary(b), v, ""
+	},
+	"igmp3r": func(b []byte) (error, util.Message, string) {
+		v := new(protocol.IGMPv3MembershipReport)
+		return v.UnmarshalBinary(b), v, ""
+	},
 	"dhcp": func(b []byte) (error, util.Message, string) {
 		v := new(protocol.DHCP)
 		_, err := v.Write(b)
@@ -84,7 +133,10 @@ var decoders = map[string]func(b []byte) (err error, v util.Message, extra strin
 		}
 		return err, m, ""
 	},
-	"hello": func(b []byte) (error, util.Message, string) { v := new(common.Hello); return v.UnmarshalBinary(b), v, "" },
+	"hello": func(b []byte) (error, util.Message, string) {
+		v := new(common.Hello)
+		return v.UnmarshalBinary(b), v, ""
+	},
 }
 
 func isNilMsg(m util.Message) bool {
@@ -128,6 +180,7 @@ func workerMain() {
 		outcome, re, extra, lenv, chash := 0, []byte(nil), "", -1, "-"
 		var ms0, ms1 runtime.MemStats
 		runtime.ReadMemStats(&ms0)
+		cpu0 := cpuTime()
 		func() {
 			defer func() {
 				if r := recover(); r != nil {
@@ -169,9 +222,23 @@ func workerMain() {
 		if alloc := ms1.TotalAlloc - ms0.TotalAlloc; outcome < 2 && alloc > uint64(len(b))*512+256<<10 {
 			outcome, extra = 4, fmt.Sprintf("allocated_%d_MiB_for_%d_bytes", alloc>>20, len(b))
 		}
+		// time proportional to the input: processor time of this process (not wall-clock time, which
+		// depends on what else the machine is doing) against 30 microseconds per input byte plus 0.4 s
+		if cpu := cpuTime() - cpu0; outcome < 2 && cpu > time.Duration(len(b))*30*time.Microsecond+400*time.Millisecond {
+			outcome, extra = 3, fmt.Sprintf("cpu_%d_ms_for_%d_bytes", cpu.Milliseconds(), len(b))
+		}
 		fmt.Fprintf(out, "%d %s %s %d %s\n", outcome, hex.EncodeToString(re)+".", extra, lenv, chash)
 		out.Flush()
 	}
+}
+
+// cpuTime: user + system processor time consumed by this process so far
+func cpuTime() time.Duration {
+	var ru syscall.Rusage
+	if syscall.Getrusage(syscall.RUSAGE_SELF, &ru) != nil {
+		return 0
+	}
+	return time.Duration(ru.Utime.Nano() + ru.Stime.Nano())
 }
 
 func payloadTag(e *protocol.Ethernet) string {
